@@ -98,3 +98,18 @@ fn m3_float_facts_equal_std_over_the_whole_shape() {
     }
     assert!(n > 1_000_000);
 }
+
+#[test]
+fn m9_count_chars_equals_std() {
+    let pieces = ["", "a", "\n", "é", "€", "😀", "ab", "éé", "a€b", "\u{80}", "\u{7ff}", "\u{800}", "\u{ffff}", "\u{10000}", "\u{10ffff}"];
+    for a in pieces {
+        for b in pieces {
+            for c in pieces {
+                let s = format!("{a}{b}{c}");
+                assert_eq!(count_chars(&s), s.chars().count(), "{s:?}");
+                let long = s.repeat(9);
+                assert_eq!(count_chars(&long), long.chars().count());
+            }
+        }
+    }
+}
